@@ -82,15 +82,25 @@ impl Wake for CW {
 }
 
 /// number of inline-polling wakers (ids `NW..NW+NI`), accepted by the counter's `avail` only
-const NI: usize = 2;
+const NI: usize = 4;
+/// of these, ids `NW+2..NW+NI` also **take** the slot they find free and let the next task ask
+const TAKER0: usize = NW + 2;
 
 /// what the inline-polling tasks hold: their own handle of the counter (a clone of the handle they
 /// asked through) and their own waker; `saw`: (waker id, `total()`, `available(cx)`) per inline poll
 #[derive(Default)]
 struct InlineCtx {
     task: [Option<Rc<Counter>>; NI],
+    /// all wakers, counting ones included (ids `0..NW+NI`)
     wakers: Vec<Waker>,
     saw: Vec<(usize, usize, bool)>,
+    /// what the taking tasks did inside `wake()`: (waker id, the guard taken, the answer the next
+    /// task — asking with the counting waker `id - 4` — got)
+    took: Vec<(usize, CounterGuard, bool)>,
+    /// the `lw` engine's `LocalWaker`: the re-entrant wakers 4 / 5 register waker 1 / themselves on it
+    /// from inside `wake()`; `rereg`: (waker id, what that `register` returned)
+    lw: Option<Rc<LocalWaker>>,
+    rereg: Vec<(usize, bool)>,
 }
 thread_local! {
     static INLINE: RefCell<InlineCtx> = RefCell::new(InlineCtx::default());
@@ -104,14 +114,26 @@ static WATCHDOG: OnceLock<String> = OnceLock::new();
 
 fn inline_poll(id: usize) {
     // nothing of the context stays borrowed while the code under test runs
-    let (c, w) = INLINE.with(|x| {
+    let (c, lw, w, next) = INLINE.with(|x| {
         let x = x.borrow();
-        (x.task[id - NW].clone(), x.wakers.get(id - NW).cloned())
+        (x.task[id - NW].clone(), x.lw.clone(), x.wakers.get(id).cloned(), x.wakers.get(id - NW).cloned())
     });
+    if let (Some(lw), Some(w)) = (&lw, &w) {
+        // `lw` engine: the woken task registers on the same LocalWaker before `wake()` returns
+        let was = if id == NW { lw.register(&INLINE.with(|x| x.borrow().wakers[1].clone())) } else { lw.register(w) };
+        INLINE.with(|x| x.borrow_mut().rereg.push((id, was)));
+        return;
+    }
     if let (Some(c), Some(w)) = (c, w) {
         let total = c.total();
         let avail = c.available(&Context::from_waker(&w));
         INLINE.with(|x| x.borrow_mut().saw.push((id, total, avail)));
+        if id >= TAKER0 && avail {
+            // told that a slot is free, the task takes it on the spot; the next task in line asks
+            let g = c.get();
+            let b = c.available(&Context::from_waker(next.as_ref().unwrap()));
+            INLINE.with(|x| x.borrow_mut().took.push((id, g, b)));
+        }
     }
 }
 
@@ -164,7 +186,7 @@ impl Wakers {
     fn new() -> Self {
         let cws: Vec<Arc<CW>> = (0..NW + NI).map(|i| Arc::new(CW(AtomicUsize::new(0), (i >= NW).then_some(i)))).collect();
         let wakers: Vec<Waker> = cws.iter().map(|c| Waker::from(c.clone())).collect();
-        INLINE.with(|x| x.borrow_mut().wakers = wakers[NW..].to_vec());
+        INLINE.with(|x| x.borrow_mut().wakers = wakers.clone());
         let probe_cw = Arc::new(CW(AtomicUsize::new(0), None));
         let probe = Waker::from(probe_cw.clone());
         Wakers { cws, wakers, seen: vec![0; NW + NI], probe_cw, probe, probe_seen: 0 }
@@ -201,6 +223,14 @@ fn woke_str(v: &[usize]) -> String {
     }
 }
 
+/// a capacity: any `usize` (the Lean driver uses the same rule: 1..=20 ASCII digits, at most 2^64 - 1)
+fn cap_num(s: &str) -> Option<usize> {
+    if s.is_empty() || s.len() > 20 || !s.bytes().all(|b| b.is_ascii_digit()) {
+        return None;
+    }
+    s.parse::<u64>().ok().map(|n| n as usize)
+}
+
 /// strict decimal (the Lean driver uses the same rule): 1..=9 ASCII digits
 fn num(s: &str) -> Option<usize> {
     if s.is_empty() || s.len() > 9 || !s.bytes().all(|b| b.is_ascii_digit()) {
@@ -225,7 +255,7 @@ struct CounterEng {
 }
 
 struct LwEng {
-    lw: LocalWaker,
+    lw: Rc<LocalWaker>,
     outstanding: Option<usize>,
 }
 
@@ -296,8 +326,14 @@ fn teardown(eng: &mut Eng, wk: &mut Wakers, rep: &mut Report, t3: &mut T3) {
     let tasks: Vec<Rc<Counter>> = INLINE.with(|x| {
         let mut x = x.borrow_mut();
         x.saw.clear();
+        x.rereg.clear();
+        x.lw = None;
         x.task.iter_mut().filter_map(|t| t.take()).collect()
     });
+    let stray: Vec<(usize, CounterGuard, bool)> = INLINE.with(|x| std::mem::take(&mut x.borrow_mut().took));
+    for (_, g, _) in stray {
+        let _ = catch(move || drop(g));
+    }
     for t in tasks {
         if let Err(m) = catch(move || drop(t)) {
             t3.fail(rep, "C17", format!("dropping a Counter handle at the end of the case panicked: {m}"));
@@ -368,7 +404,7 @@ fn run(a: &Args) {
         let real: String = if ws.first() == Some(&"case") {
             teardown(&mut eng, &mut wk, &mut rep, &mut t3);
             let counter = |cap: &str, probe: bool| -> Option<Eng> {
-                let cap = num(cap)?;
+                let cap = cap_num(cap)?;
                 Some(Eng::Counter(CounterEng {
                     handles: vec![Some(Counter::new(cap))],
                     guards: vec![],
@@ -381,8 +417,11 @@ fn run(a: &Args) {
             let made: Option<Eng> = match ws.as_slice() {
                 ["case", _, "counter", cap] => counter(cap, false),
                 ["case", _, "counter", cap, "probe"] => counter(cap, true),
-                ["case", _, "lw"] => Some(Eng::Lw(LwEng { lw: LocalWaker::new(), outstanding: None })),
-                ["case", _, "lw", "default"] => Some(Eng::Lw(LwEng { lw: LocalWaker::default(), outstanding: None })),
+                ["case", _, "lw"] | ["case", _, "lw", "default"] => {
+                    let lw = Rc::new(if ws.len() == 3 { LocalWaker::new() } else { LocalWaker::default() });
+                    INLINE.with(|x| x.borrow_mut().lw = Some(lw.clone()));
+                    Some(Eng::Lw(LwEng { lw, outstanding: None }))
+                }
                 ["case", _, "chan"] => {
                     let one = || {
                         let (tx, rx) = mpsc::channel::<u32>();
@@ -539,6 +578,26 @@ fn counter_op(e: &mut CounterEng, ws: &[&str], wk: &mut Wakers, rep: &mut Report
                 head += " saw=";
                 head += &saw.iter().map(|(_, t, b)| format!("{t},{}", *b as u8)).collect::<Vec<_>>().join(";");
             }
+            // a taking task took the freed slot inside its wake-up and the next task asked: both are
+            // ordinary calls, made before the drop returned, and count like any other
+            let took: Vec<(usize, CounterGuard, bool)> = INLINE.with(|x| std::mem::take(&mut x.borrow_mut().took));
+            let want_taker: Option<usize> = expect_wake.filter(|w| *w >= TAKER0 && saw == want_saw);
+            if took.iter().map(|t| t.0).collect::<Vec<_>>() != want_taker.into_iter().collect::<Vec<_>>() {
+                t3.fail(rep, "C17", format!("inside the wake-up of this `{op}` the taking tasks {:?} took a slot; woken (and told a slot is free): {want_taker:?}", took.iter().map(|t| t.0).collect::<Vec<_>>()));
+            }
+            for (id, g, b) in took {
+                e.guards.push(Some(g));
+                e.live += 1;
+                let want = e.live < e.cap;
+                if b != want {
+                    t3.fail(rep, "C17", format!("asked from inside a wake-up, available answered {b} with {} live guards and capacity {}", e.live, e.cap));
+                }
+                if !want {
+                    // the task registered during the wake callback is the one the next release must wake
+                    e.pend = Some(id - NW);
+                }
+                head += &format!(" took={} next={}", e.guards.len() - 1, b as u8);
+            }
             head
         }
         ["avail", h, w] => {
@@ -633,7 +692,8 @@ fn lw_op(e: &mut LwEng, ws: &[&str], wk: &mut Wakers, rep: &mut Report, t3: &mut
     let mut expect_wake: Option<usize> = None;
     let head: String = match ws {
         ["reg", w] => {
-            let w = num(w).filter(|w| *w < NW)?;
+            // 4, 5: re-entrant wakers (woken, they register waker 1 / themselves on this LocalWaker)
+            let w = num(w).filter(|w| *w < NW + 2)?;
             let was = e.lw.register(&wk.wakers[w]);
             if was != e.outstanding.is_some() {
                 t3.fail(rep, "C17", format!("register returned {was} but a waker was registered before: {}", e.outstanding.is_some()));
@@ -644,7 +704,22 @@ fn lw_op(e: &mut LwEng, ws: &[&str], wk: &mut Wakers, rep: &mut Report, t3: &mut
         ["wake"] => {
             e.lw.wake();
             expect_wake = e.outstanding.take();
-            "done".into()
+            // the callback of a re-entrant waker found the cell empty (`wake` takes the waker out first)
+            // and what it registered is what is registered now
+            let rereg: Vec<(usize, bool)> = INLINE.with(|x| std::mem::take(&mut x.borrow_mut().rereg));
+            let want: Vec<(usize, bool)> = expect_wake.filter(|w| *w >= NW).map(|w| (w, false)).into_iter().collect();
+            if rereg != want {
+                t3.fail(rep, "C17", format!("inside `wake` the re-entrant wakers registered again (waker, register returned) = {rereg:?}; the property demands {want:?}"));
+            }
+            match expect_wake {
+                Some(w) if w == NW => e.outstanding = Some(1),
+                Some(w) if w > NW => e.outstanding = Some(w),
+                _ => {}
+            }
+            match rereg.first() {
+                Some((_, was)) => format!("done rereg={}", *was as u8),
+                None => "done".into(),
+            }
         }
         ["take"] => {
             let got = e.lw.take();
@@ -1092,6 +1167,69 @@ fn gen_c17_scenarios(w: &mut dyn Write, n: &mut u64) {
             }
         }
     }
+    // capacities that do not fit a narrower or a signed integer: the gate is open below them
+    for (k, cap) in [u32::MAX as usize, 1usize << 32, isize::MAX as usize, (isize::MAX as usize) + 1, usize::MAX - 1, usize::MAX, 1usize << 31, u16::MAX as usize + 1]
+        .iter()
+        .enumerate()
+    {
+        for probe in [false, true] {
+            let ops: Vec<String> = ["avail 0 1", "acquire 0", "clone 0", "acquire 1", "avail 1 2", "total 0", "dbg 0", "acquire 0", "avail 0 4", "dbgG 1", "drop 1", "avail 1 6", "dropP 0", "total 1", "drop 2", "avail 0 3", "total 0"]
+                .iter()
+                .map(|o| o.to_string())
+                .collect();
+            *n += 1;
+            emit(w, &format!("case sc-bigcap-{k}{} counter {cap}{}", if probe { "p" } else { "" }, if probe { " probe" } else { "" }), &ops);
+        }
+    }
+    // a taking task (wakers 6, 7): woken by the release it takes the freed slot inside its wake-up and the
+    // next task (counting waker 2 / 3) is answered "unavailable" there — that registration, made during
+    // the wake callback, is the one the next release must wake
+    for probe in [false, true] {
+        for cap in 1..=3usize {
+            for over in 0..=1usize {
+                for unwind in [false, true] {
+                    let total = cap + over;
+                    let d = if unwind { "dropP" } else { "drop" };
+                    let mut ops: Vec<String> = (0..total).map(|_| "acquire 0".to_string()).collect();
+                    ops.push(format!("avail 0 {}", TAKER0 + over));
+                    for g in 0..=over {
+                        ops.push(format!("{d} {g}")); // the last of these wakes the taker: guard `total` is taken
+                    }
+                    ops.push("total 0".into());
+                    // next release: wakes the asker that registered inside the callback
+                    let next = if cap >= 2 { over + 1 } else { total };
+                    ops.push(format!("{d} {next}"));
+                    ops.push("total 0".into());
+                    ops.push(format!("avail 0 {}", TAKER0 + 1 - over));
+                    if cap >= 2 {
+                        ops.push(format!("drop {total}"));
+                    }
+                    ops.push("avail 0 0".into());
+                    *n += 1;
+                    emit(
+                        w,
+                        &format!("case sc-taker-{cap}-{over}-{}{} counter {cap}{}", unwind as u8, if probe { "p" } else { "" }, if probe { " probe" } else { "" }),
+                        &ops,
+                    );
+                }
+            }
+        }
+    }
+    for (k, ops) in [
+        vec!["reg 4", "wake", "wake", "wake"],
+        vec!["reg 4", "wake", "reg 0", "wake"],
+        vec!["reg 5", "wake", "wake", "take", "wake"],
+        vec!["reg 5", "wake", "reg 4", "wake", "take"],
+        vec!["reg 0", "reg 4", "take", "wake", "reg 5", "reg 4", "wake", "dbg", "wake"],
+    ]
+    .iter()
+    .enumerate()
+    {
+        for how in ["lw", "lw default"] {
+            *n += 1;
+            emit(w, &format!("case sc-lwre-{k}{} {how}", if how == "lw" { "" } else { "d" }), &ops.iter().map(|s| s.to_string()).collect::<Vec<_>>());
+        }
+    }
     for how in ["lw", "lw default"] {
         for (k, ops) in [
             vec!["reg 0", "reg 1", "wake", "wake"],
@@ -1338,7 +1476,7 @@ fn gen_counter_inline_exhaustive(w: &mut dyn Write, cap: usize, len: usize, n: &
             }
             st.live.insert(k, g);
         }
-        for wk in [0, NW, NW + 1] {
+        for wk in [0, NW, NW + 1, TAKER0] {
             st.ops.push(format!("avail 0 {wk}"));
             rec(w, st, cap, len, n);
             st.ops.pop();
@@ -1457,6 +1595,8 @@ fn gen_c17(a: &Args, w: &mut dyn Write) {
     let mut m = 0u64;
     gen_lw_exhaustive(w, &["reg 0", "reg 1", "wake", "take"], "lw", if thorough { 8 } else { 6 }, &mut m);
     gen_lw_exhaustive(w, &["reg 0", "reg 1", "wake", "take", "dbg"], "lw default", if thorough { 7 } else { 5 }, &mut m);
+    // re-entrant wakers: woken, 4 registers waker 1 and 5 registers itself on the same LocalWaker
+    gen_lw_exhaustive(w, &["reg 0", "reg 4", "reg 5", "wake", "take"], "lw", if thorough { 7 } else { 6 }, &mut m);
     // (4) random long histories, capacities 0..5, 4 wakers, clones, dropped handles, junk lines
     let mut rng = Rng::new(a.seed ^ 0x17);
     gen_counter_random(w, &mut rng, if thorough { 20000 } else { 1500 }, 40);
